@@ -266,4 +266,29 @@ def variants(program):
         return True
     add('twin-flatten-renamed-locals', 'twin', DGM, flatten_for_rescan)
 
+    def get_index_subscript(tree):
+        # seed C16-r3-1: a lookup miss inserts the key
+        fun = find_func(tree, 'RList.get_index')
+        doc = [s_ for s_ in fun.body if isinstance(s_, ast.Expr) and
+               isinstance(s_.value, ast.Constant)]
+        fun.body = doc + parse_stmts(
+            'ind = self._index[self._key(value)]\n'
+            'return ind[0] if ind else default')
+        return True
+    add('seed-lookup-miss-inserts-the-key', 'mutant', RLM,
+        get_index_subscript, {'DG-PURE'},
+        note='`node in graph` is then true for a node the graph never held')
+
+    def get_index_guarded(tree):
+        fun = find_func(tree, 'RList.get_index')
+        doc = [s_ for s_ in fun.body if isinstance(s_, ast.Expr) and
+               isinstance(s_.value, ast.Constant)]
+        fun.body = doc + parse_stmts(
+            'key = self._key(value)\n'
+            'if key not in self._index:\n'
+            '    return default\n'
+            'return self._index[key][0]')
+        return True
+    add('twin-lookup-guarded-by-membership', 'twin', RLM, get_index_guarded)
+
     return out
